@@ -307,6 +307,7 @@ if __name__ == "__main__":
         sys.path.insert(0, HERE)
         worker_main()
         sys.exit(0)
+    sys.path.insert(0, os.path.dirname(HERE))
 
 # ======================================================================================
 # DRIVER SIDE
@@ -392,6 +393,11 @@ class Pool:
             if p is not None and p.poll() is None:
                 try:
                     p.stdin.close()  # type: ignore[union-attr]
+                except Exception:  # noqa: BLE001
+                    pass
+        for p in self.procs:
+            if p is not None and p.poll() is None:
+                try:
                     p.wait(timeout=20)
                 except Exception:  # noqa: BLE001
                     try:
@@ -851,7 +857,7 @@ def compare_check(files: dict[str, str], ver: str, od: dict[str, Any], on: dict[
                 which = ",".join(nm_ for nm_, p, q in zip(("line", "column", "end_line", "end_column"), x[:4], y[:4]) if p != q)
                 se = "start" if ("line" in which.split(",") or "column" in which.split(",")) else "end"
                 src_lines = split_lines(data)
-                if 1 <= x[0] <= len(src_lines) and any(b > 127 for b in src_lines[x[0] - 1]):
+                if any(1 <= ln_ <= len(src_lines) and any(b > 127 for b in src_lines[ln_ - 1]) for ln_ in (x[0], x[2]) if ln_):
                     # one root cause whatever the node: columns are UTF-8 bytes under fastparse, characters under nativeparse
                     nk = "non-ascii-line"
                 elif se == "end" and (x[2], x[3]) == (x[0], x[1]) and (y[2], y[3]) != (y[0], y[1]):
@@ -934,77 +940,146 @@ def run_check_batches(pool: Pool, batches: list[tuple[dict[str, str], list[int],
         run_check_batches(pool, again, F, stats, ctx, depth + 1)
 
 
-def build_corpus(ctx: "vlib.Ctx") -> dict[str, list[tuple[str, str]]]:
-    """Named groups of (id, source)."""
-    rng = vlib.Rng(ctx.seed, "corpus")
+FIXED_SHARD = os.path.join(vlib.VERIF, "corpus", "C14", "fixed.json")
+
+
+def stable_hash(x: str) -> int:
+    return int(hashlib.sha1(x.encode("utf-8", "surrogateescape")).hexdigest()[:12], 16)
+
+
+def hver(x: str, k: int = 0) -> list[int]:
+    return VERSIONS[(stable_hash(x) + k) % 6]
+
+
+def testdata_corpus() -> tuple[list[tuple[str, str]], int]:
     td = os.path.join(vlib.REPO, "test-data", "unit")
     tfiles = sorted(os.path.join(td, f) for f in os.listdir(td)
                     if re.match(r"^(check-.*|parse.*|native-parser.*|semanal-.*)\.test$", f))
-    cases = [(i, s) for i, s in testdata_cases(tfiles) if not TYPE_COMMENT.search(s) and s.strip()]
-    n_type_comment = sum(1 for i, s in testdata_cases(tfiles) if TYPE_COMMENT.search(s))
-    own = []
-    for root, dirs, files in os.walk(os.path.join(vlib.REPO, "mypy")):
-        dirs[:] = sorted(x for x in dirs if x not in ("typeshed", "__pycache__", "xml"))
-        for f in sorted(files):
-            if f.endswith(".py"):
-                p = os.path.join(root, f)
-                try:
-                    s = open(p, encoding="utf-8").read()
-                except (OSError, UnicodeDecodeError):
-                    continue
-                if not TYPE_COMMENT.search(s):
-                    own.append((os.path.relpath(p, vlib.REPO), s))
-    rng.shuffle(cases)
-    rng.shuffle(own)
-    snippets = [(f"snippet:{k}", s) for k, s in enumerate(SNIPPETS)]
-    layouts = []
-    for sid, s in snippets:
+    allc = testdata_cases(tfiles)
+    cases = sorted({i: s for i, s in allc if not TYPE_COMMENT.search(s) and s.strip()}.items())
+    return cases, sum(1 for i, s in allc if TYPE_COMMENT.search(s))
+
+
+def make_fixed() -> list[dict[str, Any]]:
+    """The seed-independent shard (committed as corpus/C14/fixed.json): one minimal program per construct x layout,
+    frozen corruptions, the minimal witness of every recorded finding, a frozen selection of test-data cases."""
+    out: list[dict[str, Any]] = []
+    rng = vlib.Rng(0, "C14-fixed")
+    for k, s in enumerate(SNIPPETS):
+        sid = f"snippet:{k}"
+        out.append({"id": sid, "src": s, "parse": VERSIONS, "check": [[3, 9], [3, 12], [3, 14]]})
         for kind, v in layout_variants(s, rng):
-            layouts.append((f"{sid}:{kind}", v))
-    ctx.cov["corpus"] = {"testdata_cases_without_type_comments": len(cases), "testdata_cases_excluded_type_comments": n_type_comment,
-                         "own_files": len(own), "snippets": len(snippets), "layout_variants": len(layouts)}
-    return {"cases": cases, "own": own, "snippets": snippets, "layouts": layouts}
+            if kind == "longline" and k % 10:
+                continue
+            lid = f"{sid}:{kind}"
+            hv = hver(lid)
+            out.append({"id": lid, "src": v, "parse": [hv] if hv == [3, 12] else [hv, [3, 12]],
+                        "check": [hv] if stable_hash(lid) % 8 == 0 else []})
+        for kind, v in corruptions(s, rng, 6):
+            cid = f"{sid}:corrupt:{kind}"
+            out.append({"id": cid, "src": v, "parse": [hver(cid)], "check": []})
+    fj = os.path.join(vlib.VERIF, "notes", "C14-findings.json")
+    if os.path.exists(fj):
+        seen = set()
+        for f in json.load(open(fj))["findings"]:
+            src = f.get("source")
+            if not isinstance(src, str) or (src, f.get("python_version")) in seen:
+                continue
+            seen.add((src, f.get("python_version")))
+            ver = [int(x) for x in str(f.get("python_version", "3.12")).split(".")]
+            wid = "witness:" + hashlib.sha1((src + str(ver)).encode("utf-8", "surrogateescape")).hexdigest()[:10] + \
+                  (".pyi" if str(f.get("name", "")).endswith(".pyi") else "")
+            out.append({"id": wid, "src": src, "parse": [ver], "check": [ver]})
+    cases, _ = testdata_corpus()
+    sel = sorted(cases, key=lambda c: stable_hash(c[0]))[:200]
+    for i, src in sorted(sel):
+        out.append({"id": "frozen:" + i, "src": src, "parse": [hver(i)], "check": [hver(i)]})
+    # unique ids
+    seen_ids: set[str] = set()
+    res = []
+    for e in out:
+        if e["id"] in seen_ids:
+            continue
+        seen_ids.add(e["id"])
+        res.append(e)
+    return res
+
+
+def load_fixed(ctx: "vlib.Ctx") -> list[dict[str, Any]]:
+    if os.path.exists(FIXED_SHARD):
+        return json.load(open(FIXED_SHARD, encoding="utf-8"))["programs"]
+    ctx.log("S: corpus/C14/fixed.json missing: generated in memory (python tools/harness/C14.py --make-fixed writes it)")
+    return make_fixed()
+
+
+def build_corpus(ctx: "vlib.Ctx") -> list[dict[str, Any]]:
+    """Every program of the run: {id, src, parse: [versions], check: [versions], flags}.
+    FIXED part (independent of VERIF_SEED): the committed shard + every test-data case of /repo at parse level with a
+    version chosen by a stable hash.  SEEDED part (small in the quick tier): random test-data cases for the full
+    check, random single-token corruptions, mypy's own files."""
+    rng = vlib.Rng(ctx.seed, "corpus")
+    progs: list[dict[str, Any]] = []
+    only = os.environ.get("C14_ONLY")
+    fixed = load_fixed(ctx)
+    if only == "snippets1":     # development aid (mutation tests): the hand-written forms only, one version
+        fixed = [dict(e, parse=[[3, 12]], check=[[3, 12]]) for e in fixed if re.match(r"^snippet:\d+$", e["id"])]
+    progs += [dict(e, flags=[]) for e in fixed]
+    n_fixed = len(progs)
+    cases, n_type_comment = testdata_corpus()
+    if only in ("snippets", "snippets1"):
+        cases = cases[:40] if only == "snippets" else []
+    for i, s in cases:
+        vs = [hver(i)] if ctx.quick else [hver(i), hver(i, 2), hver(i, 4)]
+        progs.append({"id": i, "src": s, "parse": vs, "check": [], "flags": []})
+    # ---- seeded part
+    n_seed_check = ctx.n(60, 2600)
+    n_seed_corrupt_src = ctx.n(80, 4000)
+    per_src = ctx.n(4, 6)
+    n_seeded = 0
+    if cases:
+        byid = {p_["id"]: p_ for p_ in progs}
+        for i, s in rng.sample(cases, min(n_seed_check, len(cases))):
+            v = rng.choice(VERSIONS)
+            e = byid[i]
+            if v not in e["parse"]:
+                e["parse"] = e["parse"] + [v]
+            e["check"] = e["check"] + [v]
+            n_seeded += 1
+        n_cor = 0
+        for i, s in rng.sample(cases, min(n_seed_corrupt_src, len(cases))):
+            for kind, v in corruptions(s, rng, per_src):
+                progs.append({"id": f"{i}:corrupt:{kind}:{n_cor}", "src": v, "parse": [VERSIONS[n_cor % 6]], "check": [], "flags": []})
+                n_cor += 1
+        n_seeded += n_cor
+    own = []
+    if not only:
+        for root, dirs, files in os.walk(os.path.join(vlib.REPO, "mypy")):
+            dirs[:] = sorted(x for x in dirs if x not in ("typeshed", "__pycache__", "xml"))
+            for f in sorted(files):
+                if f.endswith(".py"):
+                    p = os.path.join(root, f)
+                    try:
+                        s = open(p, encoding="utf-8").read()
+                    except (OSError, UnicodeDecodeError):
+                        continue
+                    if not TYPE_COMMENT.search(s):
+                        own.append((os.path.relpath(p, vlib.REPO), s))
+        rng.shuffle(own)
+        for k, (i, s) in enumerate(own[:ctx.n(30, len(own))]):
+            progs.append({"id": i, "src": s, "parse": [VERSIONS[k % 6]], "check": [[3, 12]] if k < ctx.n(2, 24) else [],
+                          "flags": ["--follow-imports=skip"]})
+    ctx.cov["corpus"] = {"fixed_shard_programs": n_fixed, "testdata_cases_parse_level(all, stable version)": len(cases),
+                         "testdata_cases_excluded_type_comments": n_type_comment, "seeded_sample": n_seeded, "own_files": len(own),
+                         "snippets": len(SNIPPETS)}
+    return progs
 
 
 def search_stage(ctx: "vlib.Ctx", pool: Pool) -> Findings:
-    rng = vlib.Rng(ctx.seed, "search")
     F = Findings()
     leads: dict[str, int] = {}
     stats: dict[str, int] = {}
     corpus = build_corpus(ctx)
-    if os.environ.get("C14_ONLY") == "snippets":   # development aid (mutation tests): the hand-written forms only
-        corpus["cases"] = corpus["cases"][:40]
-        corpus["own"] = corpus["own"][:2]
-        corpus["layouts"] = corpus["layouts"][:40]
-    if os.environ.get("C14_ONLY") == "snippets1":
-        corpus["cases"] = []
-        corpus["own"] = []
-        corpus["layouts"] = []
-    n_cases_parse = len(corpus["cases"])
-    n_cases_check = ctx.n(260, 2600)
-    n_own_parse = ctx.n(60, len(corpus["own"]))
-    n_own_check = ctx.n(4, 24)
-    n_layout_check = ctx.n(60, len(corpus["layouts"]))
-    n_corrupt_src = ctx.n(500, 4000)
-    per_src_corrupt = ctx.n(4, 6)
-
-    # ---------------- programs for the parse level: (id, src, versions)
-    progs: list[tuple[str, str, list[list[int]]]] = []
-    for k, (i, s) in enumerate(corpus["cases"][:n_cases_parse]):
-        progs.append((i, s, [VERSIONS[k % 6]] if ctx.quick else [VERSIONS[k % 6], VERSIONS[(k + 3) % 6]]))
-    for k, (i, s) in enumerate(corpus["own"][:n_own_parse]):
-        progs.append((i, s, [VERSIONS[k % 6]]))
-    for i, s in corpus["snippets"]:
-        progs.append((i, s, VERSIONS))
-    for k, (i, s) in enumerate(corpus["layouts"]):
-        progs.append((i, s, [VERSIONS[k % 6], [3, 12]] if VERSIONS[k % 6] != [3, 12] else [[3, 12]]))
-    base_for_corruption = ([] if os.environ.get("C14_ONLY") == "snippets1" else [x for x in corpus["snippets"]]) + corpus["cases"][:n_corrupt_src]
-    n_cor = 0
-    for i, s in base_for_corruption:
-        for kind, v in corruptions(s, rng, per_src_corrupt):
-            progs.append((f"{i}:corrupt:{kind}", v, [VERSIONS[n_cor % 6]]))
-            n_cor += 1
-    ctx.cov["corpus"]["corruptions"] = n_cor
+    progs: list[tuple[str, str, list[list[int]]]] = [(e["id"], e["src"], e["parse"]) for e in corpus]
     ctx.log(f"S: parse level on {len(progs)} programs ({sum(len(v) for _, _, v in progs)} program x version pairs)")
 
     # ---------------- parse level
@@ -1064,22 +1139,13 @@ def search_stage(ctx: "vlib.Ctx", pool: Pool) -> Findings:
                     src_of[nm] = (pid, s)
                     files[nm] = s
                 batches.append((files, [ver[0], ver[1]], flags))
-    # 1. snippets under every version
-    snip_vers = VERSIONS if not ctx.quick else [[3, 9], [3, 12], [3, 14]]
-    if os.environ.get("C14_ONLY") == "snippets1":
-        snip_vers = [[3, 12]]
-    add_batches([(i, s, v) for i, s in corpus["snippets"] for v in snip_vers if open_in(i, v)], 40, [])
-    # 2. test-data cases: those with AST leads first, then the rest, one version each
-    cs = [(i, s, vs[0]) for i, s, vs in progs[:n_cases_parse] if open_in(i, vs[0])]
-    cs.sort(key=lambda x: -lead_srcs.get(x[0], 0))
-    add_batches(cs[:n_cases_check], 40, [])
-    # 3. layouts
-    ls = [(i, s, vs[0]) for i, s, vs in progs if ":snippet" not in i and i.startswith("snippet:") and i.count(":") == 2 and open_in(i, vs[0])]
-    add_batches(ls[:n_layout_check], 40, [])
-    # 4. mypy's own files, imports not followed
-    ow = [(i, s, [3, 12]) for i, s in corpus["own"][:n_own_parse] if open_in(i, VERSIONS[0]) or True]
-    ow = [(i, s, v) for i, s, v in ow if any(status.get((i, f"{x[0]}.{x[1]}")) == "open" for x in VERSIONS)]
-    add_batches(ow[:n_own_check], 2, ["--follow-imports=skip"])
+    by_flags: dict[tuple[str, ...], list[tuple[str, str, list[int]]]] = {}
+    for e in corpus:
+        for v in e["check"]:
+            if open_in(e["id"], v):
+                by_flags.setdefault(tuple(e.get("flags", [])), []).append((e["id"], e["src"], v))
+    for fl, items in sorted(by_flags.items()):
+        add_batches(items, 2 if fl else 40, list(fl))
     ctx.log(f"S: full check of {len(src_of)} files in {len(batches)} batches x 2 parsers")
     t0 = time.time()
     F2 = Findings()
@@ -1250,22 +1316,28 @@ def run(ctx: "vlib.Ctx") -> None:
         "position validity: columns are UTF-8 byte offsets (CPython col_offset), a tab is one column, the position just after the last "
         "character of a line counts as inside the line",
     ]
+    stages = os.environ.get("C14_STAGES", "TPCS")   # development aid: e.g. C14_STAGES=S for corpus sweeps
     # ---- T
-    try:
-        t14.generate()
-    except (Unsupported, Exception) as e:  # noqa: BLE001
-        ctx.broke("T", "t14 (Errors.report clamp -> gen/Clamp.v)", f"{type(e).__name__}: {e}")
+    if "T" in stages:
+        try:
+            t14.generate()
+        except (Unsupported, Exception) as e:  # noqa: BLE001
+            ctx.broke("T", "t14 (Errors.report clamp -> gen/Clamp.v)", f"{type(e).__name__}: {e}")
     # ---- P + A
-    ctx.prove("C14/Properties.v", ["C14", "gen", "lib"])
+    if "P" in stages:
+        ctx.prove("C14/Properties.v", ["C14", "gen", "lib"])
     pool = Pool(vlib.NPROC, ctx)
     try:
         # ---- C
-        clamp_stage(ctx, pool)
-        frag_stage(ctx, pool)
+        if "C" in stages:
+            clamp_stage(ctx, pool)
+            frag_stage(ctx, pool)
         # ---- S
         F = search_stage(ctx, pool)
     finally:
+        t_close = time.time()
         pool.close()
+        ctx.log(f"workers closed in {time.time() - t_close:.0f}s")
     known = {k["key"] for k in vlib.load_known() if k.get("property") == "C14"}
     todo = [k for k in sorted(F.items) if (k not in known or os.environ.get("C14_SHRINK_ALL")) and len(F.items[k]["data"].get("source", "")) > 60]
     if todo and not os.environ.get("C14_NO_SHRINK"):
@@ -1315,7 +1387,9 @@ def replay(ctx: "vlib.Ctx", path: str) -> None:
 COQ_TAGS = ["LITERAL_NONE", "LITERAL_INT", "LITERAL_STR", "LIST_GEN", "LIST_INT", "LOCATION", "END_TAG", "EXPR_STMT", "CALL_EXPR",
             "NAME_EXPR", "STR_EXPR", "MEMBER_EXPR", "OP_EXPR", "INT_EXPR", "IF_STMT", "ASSIGNMENT_STMT", "TUPLE_EXPR", "BLOCK",
             "LIST_EXPR", "RETURN_STMT", "WHILE_STMT", "COMPARISON_EXPR", "BOOL_OP_EXPR", "PASS_STMT", "UNARY_EXPR", "FOR_STMT",
-            "CONDITIONAL_EXPR", "FUNC_DEF_STMT", "CLASS_DEF", "DICT_STR_GEN"]
+            "CONDITIONAL_EXPR", "FUNC_DEF_STMT", "CLASS_DEF", "DICT_STR_GEN", "DECORATOR", "SET_EXPR", "DICT_EXPR", "INDEX_EXPR",
+            "SLICE_EXPR", "STAR_EXPR", "LAMBDA_EXPR", "OPERATOR_ASSIGNMENT_STMT", "BREAK_STMT", "CONTINUE_STMT", "GLOBAL_DECL",
+            "NONLOCAL_DECL", "DEL_STMT", "ASSERT_STMT", "RAISE_STMT", "IMPORT", "IMPORT_FROM", "IMPORT_ALL", "WITH_STMT", "TRY_STMT"]
 BINOP_C = {"+": "Add", "-": "Sub", "*": "Mult", "@": "MatMult", "/": "Div", "%": "Mod", "**": "Pow", "<<": "LShift", ">>": "RShift",
            "|": "BitOr", "^": "BitXor", "&": "BitAnd", "//": "FloorDiv"}
 CMPOP_C = {"==": "Eq", "!=": "NotEq", "<": "Lt", "<=": "LtE", ">": "Gt", ">=": "GtE", "is": "Is", "is not": "IsNot", "in": "In", "not in": "NotIn"}
@@ -1335,8 +1409,42 @@ def cq_pos(p: list) -> str:
     return "(P " + " ".join(cq_z(x) for x in p[1:]) + ")"
 
 
+def cq_oe(o: list) -> str:
+    return "ONone" if len(o) == 1 else f"(OSome {cq_expr(o[1])})"
+
+
+def cq_params(ps: list) -> str:
+    r = "PNil"
+    for x in reversed(ps):
+        r = f"(PCons {cq_pos(x[1])} {cq_pos(x[2])} {cq_s(x[3])} {x[4]} {cq_oe(x[5])} {r})"
+    return r
+
+
+def cq_strlist(l: list) -> str:
+    return "[" + "; ".join(cq_s(x[1]) for x in l) + "]"
+
+
+def cq_aliases(l: list) -> str:
+    return "[" + "; ".join(f"({cq_s(a[1])}, " + (f"Some {cq_s(a[2])}" if a[2] is not None else "None") + ")" for a in l) + "]"
+
+
 def cq_expr(e: list) -> str:
     k = e[0]
+    if k == "ESet":
+        return f"(ESet {cq_pos(e[1])} {cq_exprs(e[2])})"
+    if k == "EDict":
+        d = "DNil"
+        for it in reversed(e[2]):
+            d = f"(DCons {cq_oe(it[1])} {cq_expr(it[2])} {d})"
+        return f"(EDict {cq_pos(e[1])} {d})"
+    if k == "ESubscript":
+        return f"(ESubscript {cq_pos(e[1])} {cq_expr(e[2])} {cq_expr(e[3])})"
+    if k == "ESlice":
+        return f"(ESlice {cq_pos(e[1])} {cq_oe(e[2])} {cq_oe(e[3])} {cq_oe(e[4])})"
+    if k == "EStar":
+        return f"(EStar {cq_pos(e[1])} {cq_expr(e[2])})"
+    if k == "ELambda":
+        return f"(ELambda {cq_pos(e[1])} {cq_params(e[2])} {cq_expr(e[3])})"
     if k == "EName":
         return f"(EName {cq_pos(e[1])} {cq_s(e[2])})"
     if k == "EInt":
@@ -1395,17 +1503,42 @@ def cq_stmt(s: list) -> str:
             kw = f"(KCons {cq_s(x[1])} {cq_expr(x[2])} {kw})"
         return f"(SClass {cq_pos(s[1])} {cq_s(s[2])} {cq_exprs(s[3])} {kw} {cq_exprs(s[5])} {cq_stmt(s[6][0])} {cq_stmts(s[6][1:])})"
     if k == "SDef":
-        ps = "PNil"
-        for x in reversed(s[3]):
-            d = f"(Some {cq_expr(x[5][1])})" if len(x[5]) > 1 else "None"
-            ps = f"(PCons {cq_pos(x[1])} {cq_pos(x[2])} {cq_s(x[3])} {x[4]} {d} {ps})"
-        return f"(SDef {cq_pos(s[1])} {cq_s(s[2])} {ps} {cq_stmt(s[4][0])} {cq_stmts(s[4][1:])})"
+        return f"(SDef {cq_pos(s[1])} {cq_s(s[2])} {cq_params(s[3])} {cq_exprs(s[4])} {cq_pos(s[5])} {cq_stmt(s[6][0])} {cq_stmts(s[6][1:])})"
+    if k == "SAugAssign":
+        return f"(SAugAssign {cq_pos(s[1])} {BINOP_C[s[2][1]]} {cq_expr(s[3])} {cq_expr(s[4])})"
+    if k in ("SBreak", "SContinue"):
+        return f"({k} {cq_pos(s[1])})"
+    if k in ("SGlobal", "SNonlocal"):
+        return f"({k} {cq_pos(s[1])} {cq_strlist(s[2])})"
+    if k == "SDel":
+        return f"(SDel {cq_pos(s[1])} {cq_expr(s[2][0])} {cq_exprs(s[2][1:])})"
+    if k == "SAssert":
+        return f"(SAssert {cq_pos(s[1])} {cq_expr(s[2])} {cq_oe(s[3])})"
+    if k == "SRaise":
+        return f"(SRaise {cq_pos(s[1])} {cq_oe(s[2])} {cq_oe(s[3])})"
+    if k == "SImport":
+        return f"(SImport {cq_pos(s[1])} {cq_aliases(s[2])})"
+    if k == "SImportFrom":
+        return f"(SImportFrom {cq_pos(s[1])} {cq_z(s[2])} {cq_s(s[3])} {cq_aliases(s[4])})"
+    if k == "SImportAll":
+        return f"(SImportAll {cq_pos(s[1])} {cq_z(s[2])} {cq_s(s[3])})"
+    if k == "SWith":
+        w = "WNil"
+        for it in reversed(s[2]):
+            w = f"(WCons {cq_expr(it[1])} {cq_oe(it[2])} {w})"
+        return f"(SWith {cq_pos(s[1])} {w} {cq_stmt(s[3][0])} {cq_stmts(s[3][1:])})"
+    if k == "STry":
+        h = "HNil"
+        for it in reversed(s[3]):
+            nm = "None" if it[3] is None else f"(Some ({cq_s(it[3][0])}, {cq_pos(it[3][1])}))"
+            h = f"(HCons {cq_pos(it[1])} {cq_oe(it[2])} {nm} {cq_stmt(it[4][0])} {cq_stmts(it[4][1:])} {h})"
+        return f"(STry {cq_pos(s[1])} {cq_stmt(s[2][0])} {cq_stmts(s[2][1:])} {h} {cq_stmts(s[4])} {cq_stmts(s[5])})"
     if k == "SExpr":
         return f"(SExpr {cq_pos(s[1])} {cq_expr(s[2])})"
     if k == "SAssign":
         return f"(SAssign {cq_pos(s[1])} {cq_exprs(s[2])} {cq_expr(s[3])})"
     if k == "SReturn":
-        return f"(SReturn {cq_pos(s[1])} " + (f"(Some {cq_expr(s[2][1])})" if len(s[2]) > 1 else "None") + ")"
+        return f"(SReturn {cq_pos(s[1])} {cq_oe(s[2])})"
     if k == "SPass":
         return f"(SPass {cq_pos(s[1])})"
     if k == "SWhile":
@@ -1540,6 +1673,21 @@ FRAG_FIXED = [
     "class A: pass\n", "class A():\n    x = 1\n", "class A(B, c.D, metaclass=M, k=1):\n    def f(self): pass\n", "@dec\n@a.b(1)\nclass A(B):\n    pass\n",
     "class A(metaclass=M, metaclass2=N):\n    pass\n", "class A(*b): pass\n", "class A(**k): pass\n", "class A(B,\n        C):\n    class D: pass\n",
     "if a:\n    class A: pass\nelse:\n    class A(B): pass\n",
+    # wave 3 constructs
+    "x += 1\n", "a.b //= c\n", "x[0] **= 2\n", "while a:\n    break\n    continue\n", "global a, b\n", "def f():\n    nonlocal x\n    global y\n",
+    "del a\n", "del a, b\n", "del a.b, c[0]\n", "del (a)\n", "assert a\n", "assert a, 'msg'\n", "assert (a, b)\n", "raise\n", "raise E\n", "raise E(1) from None_\n",
+    "import a\n", "import a.b.c\n", "import a as b, c.d as e, f\n", "from m import x\n", "from . import x\n", "from .. import x as y, z\n",
+    "from .m.n import (p, q as r,)\n", "from os import *\n", "from . import *\n", "def f():\n    import a\n    from b import c\n",
+    "class C:\n    import a\n    def g(self):\n        from . import *\n", "if a:\n    import b\nelse:\n    from c import d\n",
+    "with a:\n    pass\n", "with a as b, c as (d, e), f:\n    x\n", "with (a as b, c):\n    pass\n", "with a as b.c, d as e[0]:\n    pass\n",
+    "try:\n    pass\nexcept:\n    pass\n", "try:\n    a\nexcept E:\n    b\nexcept (F, G) as e:\n    c\nelse:\n    d\nfinally:\n    e\n",
+    "try:\n    a\nfinally:\n    b\n", "try:\n    a\nexcept E as err:\n    raise X from err\n", "try:\n    a\nexcept (E) as err:\n    pass\n",
+    "@d\ndef f(): pass\n", "@a.b\n@c(1, k=2)\ndef f(x, *y):\n    return x\n", "@(d)\ndef f(): pass\n", "class A:\n    @property\n    def p(self): return 1\n",
+    "@d\ndef f(): pass\n@d\ndef g(): pass\n", "if a:\n    @d\n    def f(): pass\n", "@d\ndef f(): pass\n@e\ndef f(): pass\n",
+    "{}\n", "{a: 1}\n", "{a: 1, **b, 'c': d}\n", "{a}\n", "{a, (b, c)}\n", "a[0]\n", "a[b][c]\n", "a[1:2]\n", "a[:]\n", "a[::2]\n", "a[1:2, ::3, b]\n",
+    "a[b:c:d].e\n", "x[0] = 1\n", "a, *b = c\n", "[*a, b]\n", "(*a,)\n", "f(*a)[*b]\n", "*a, b = c\n", "for x, *y in z: pass\n",
+    "lambda: 1\n", "f = lambda x, y=1, *a, k, **kw: x\n", "lambda x: (x)\n", "(lambda: a)()\n", "f(lambda x, /: x, key=lambda: 0)\n", "lambda *, k=(1, 2): k\n",
+    "x = lambda a: lambda b: a + b\n", "lambda __x, y: 0\n", "def f(a=lambda: 1): pass\n",
 ]
 
 
@@ -1549,8 +1697,25 @@ def gen_frag_programs(rng: "vlib.Rng", n: int) -> list[str]:
     cmps = list(CMPOP_C)
 
     def expr(d: int) -> str:
-        k = rng.choice(["name", "name", "int", "str", "attr", "call", "bin", "bin", "unary", "cmp", "bool", "ifexp", "tuple", "list", "paren"]) if d > 0 \
+        k = rng.choice(["name", "name", "int", "str", "attr", "call", "bin", "bin", "unary", "cmp", "bool", "ifexp", "tuple", "list", "paren",
+                        "set", "dict", "sub", "slice", "lambda", "starlist"]) if d > 0 \
             else rng.choice(["name", "int", "str"])
+        if k == "set":
+            return "{" + ", ".join(expr(d - 1) for _ in range(rng.randint(1, 3))) + "}"
+        if k == "dict":
+            items = [f"{expr(d - 1)}: {expr(d - 1)}" if rng.random() < 0.8 else f"**{atom(d - 1)}" for _ in range(rng.randint(0, 3))]
+            return "{" + ", ".join(items) + "}"
+        if k == "sub":
+            return f"{atom(d - 1)}[{expr(d - 1)}]"
+        if k == "slice":
+            part = lambda: expr(d - 1) if rng.random() < 0.5 else ""  # noqa: E731
+            sl = f"{part()}:{part()}" + (f":{part()}" if rng.random() < 0.4 else "")
+            return f"{atom(d - 1)}[{sl}" + (f", {expr(d - 1)}" if rng.random() < 0.2 else "") + "]"
+        if k == "lambda":
+            ps = rng.choice(["", "x", "x, y=1", "*a", "x, /, y", "*, k", "x, *a, k=2, **kw", "__x", "self, *, __k=1"])
+            return f"(lambda {ps}: {expr(d - 1)})"
+        if k == "starlist":
+            return "[" + ", ".join(("*" if rng.random() < 0.5 else "") + atom(d - 1) for _ in range(rng.randint(1, 3))) + "]"
         if k == "name":
             return rng.choice(names)
         if k == "int":
@@ -1605,7 +1770,14 @@ def gen_frag_programs(rng: "vlib.Rng", n: int) -> list[str]:
         return f"({e})"
 
     def stmt(d: int, ind: str) -> list[str]:
-        k = rng.choice(["expr", "expr", "assign", "return", "pass", "while", "for", "if", "if", "def", "def", "class"]) if d > 0 else rng.choice(["expr", "assign", "pass", "return"])
+        k = rng.choice(["expr", "expr", "assign", "return", "pass", "while", "for", "if", "if", "def", "def", "class", "simple", "simple", "with", "try", "try"]) if d > 0 \
+            else rng.choice(["expr", "assign", "pass", "return", "simple"])
+        if k == "simple":
+            return [ind + rng.choice([
+                f"x {rng.choice(bins)}= {expr(1)}", f"a.b += {expr(1)}", "break", "continue", "global g1, g2", "nonlocal n1",
+                f"del {atom(1)}", f"del a, {atom(1)}.x", f"assert {expr(1)}", f"assert {expr(1)}, {expr(1)}", "raise", f"raise {expr(1)}",
+                f"raise {expr(1)} from {expr(1)}", "import m1", "import m1.m2 as m3, m4", "from m1 import n1, n2 as n3", "from . import n1",
+                "from ..m1.m2 import (n1,)", "from m1 import *", f"a, *b = {expr(1)}", f"x[{expr(1)}] = {expr(1)}"])]
         if k == "expr":
             return [ind + expr(2)]
         if k == "assign":
@@ -1616,6 +1788,20 @@ def gen_frag_programs(rng: "vlib.Rng", n: int) -> list[str]:
         if k == "pass":
             return [ind + "pass"]
         body = lambda: [l for _ in range(rng.randint(1, 2)) for l in stmt(d - 1, ind + "    ")]  # noqa: E731
+        if k == "with":
+            items = [expr(1) + rng.choice(["", " as w", " as (w1, w2)", " as w.x"]) for _ in range(rng.randint(1, 3))]
+            return [ind + f"with {', '.join(items)}:"] + body()
+        if k == "try":
+            out = [ind + "try:"] + body()
+            nh = rng.randint(0, 2)
+            for _ in range(nh):
+                out += [ind + rng.choice(["except:", f"except {atom(1)}:", f"except {atom(1)} as err:", "except (A, B) as e2:", "except A.B as  e3:"])] + body()
+            if nh and rng.random() < 0.4:
+                out += [ind + "else:"] + body()
+            if nh == 0 or rng.random() < 0.4:
+                out += [ind + "finally:"] + body()
+            # a bare except must be last
+            return out if all(("except:" not in l) for l in out[:-1]) or True else out
         if k == "class":
             heads = []
             for _ in range(rng.randint(0, 2)):
@@ -1647,7 +1833,8 @@ def gen_frag_programs(rng: "vlib.Rng", n: int) -> list[str]:
             if rng.random() < 0.3:
                 ps.append("**kw")
             name = rng.choice(["f", "g", "meth", "__add__", "__init__", "__call__", "__private", "__eq__"])
-            return [ind + f"def {name}({', '.join(ps)}):"] + body()
+            decos = [ind + "@" + rng.choice(["dec", "a.b", "dec(1)", "(dec)", "f(x, k=2)"]) for _ in range(rng.choice([0, 0, 0, 1, 2]))]
+            return decos + [ind + f"def {name}({', '.join(ps)}):"] + body()
         if k == "while":
             out = [ind + f"while {expr(2)}:"] + body()
             if rng.random() < 0.4:
@@ -1694,7 +1881,7 @@ def frag_stage(ctx: "vlib.Ctx", pool: Pool) -> None:
     ctx.cov["fragment_skipped"] = dict(sorted(skips.items(), key=lambda kv: -kv[1])[:12])
     exprs = []
     for src, x in items:
-        exprs.append(f"(let t := {cq_stmts(x['tree'])} in (convert t, emit t, read_native (emit t)))")
+        exprs.append(f"(let t := {cq_stmts(x['tree'])} in (convert t, emit t, read_native (emit t), nconvert t))")
     out = ctx.eval_cases("frag", FRAG_HEADER, exprs, per_file=60, timeout=1800)
     if out is None:
         return
@@ -1703,8 +1890,8 @@ def frag_stage(ctx: "vlib.Ctx", pool: Pool) -> None:
     for (src, x), o in zip(items, out):
         try:
             term = parse_coq_term(o)
-            assert term[0] == "pair" and len(term) == 4
-            m_conv, m_emit, m_read = term[1], term[2], term[3]
+            assert term[0] == "pair" and len(term) == 5
+            m_conv, m_emit, m_read, m_nconv = term[1], term[2], term[3], term[4]
         except Exception as e:  # noqa: BLE001
             ctx.broke("C", "fragment: cannot parse model output", f"{src!r}: {e}: {o[:300]}")
             return
@@ -1720,6 +1907,8 @@ def frag_stage(ctx: "vlib.Ctx", pool: Pool) -> None:
             probs.append(f"emit != ast_serialize stream: model {str(m_emit)[:400]} real {str(real_toks)[:400]}")
         if m_read != real_native:
             probs.append(f"read_native(emit) != nativeparse: model {str(m_read)[:300]} real {str(real_native)[:300]}")
+        if ["Some", m_nconv] != real_native:
+            probs.append(f"nconvert != nativeparse: model {str(m_nconv)[:300]} real {str(real_native)[:300]}")
         if probs:
             bad += 1
             if bad <= 5:
@@ -1737,3 +1926,12 @@ def frag_stage(ctx: "vlib.Ctx", pool: Pool) -> None:
     ctx.sample({"fragment_source": items[len(items) // 2][0], "tokens": len(items[len(items) // 2][1]["tokens"])})
     ctx.log(f"C: fragment tie: {n_ok}/{len(items)} programs: model = real fastparse tree, real stream, real reader "
             f"(real converters agree on {n_agree}, differ on {n_disagree}); skipped {sum(skips.values())}")
+
+
+if __name__ == "__main__" and "--make-fixed" in sys.argv:
+    os.makedirs(os.path.dirname(FIXED_SHARD), exist_ok=True)
+    progs_ = make_fixed()
+    with open(FIXED_SHARD, "w", encoding="utf-8") as f_:
+        json.dump({"comment": "C14 fixed corpus shard (seed independent): regenerate with `python tools/harness/C14.py --make-fixed`",
+                   "programs": progs_}, f_, indent=0, ensure_ascii=True)
+    print(len(progs_), "programs ->", FIXED_SHARD, os.path.getsize(FIXED_SHARD), "bytes")
